@@ -1,6 +1,7 @@
 package harness
 
 import (
+	"encoding/json"
 	"fmt"
 	"os"
 	"path/filepath"
@@ -189,6 +190,72 @@ func c08Sig(rules []string, got, want bool) string {
 	return "read-denied-against-the-rules"
 }
 
+// c08ConfigFiles: the rules as an administrator gives them: in the JSON configuration file, loaded through the real
+// start-up path (config.Setup).  Every combination of a Default list (absent = the built-in "^/.*", empty, two lists)
+// and an entry for the requesting user (absent, [], null, two lists); another user's generous entry is always there.
+// The list that applies is the user's own entry whenever one exists - also an empty one, which allows nothing.
+func c08ConfigFiles(c *Ctx, l *c08Layout) {
+	if c.Shard != 0 {
+		return
+	}
+	R := regexp.QuoteMeta(l.Root)
+	type lst struct {
+		present bool
+		rules   []string // nil with present = JSON null
+		json    string
+	}
+	mk := func(rs ...string) lst {
+		b, _ := json.Marshal(rs)
+		return lst{true, rs, string(b)}
+	}
+	defaults := []lst{{}, mk(), mk("^" + R + "/pub/"), mk("^/.*", "!^"+R+"/sec/")}
+	defaults[1].json = "[]"
+	own := []lst{{}, {true, nil, "[]"}, {true, nil, "null"}, mk("^" + R + "/sec/"), mk("!^/.*"), mk("^/.*", "!\\.log$")}
+	for di, d := range defaults {
+		for oi, o := range own {
+			var users []string
+			users = append(users, `"bob": ["^/.*"]`)
+			if o.present {
+				users = append(users, `"alice": `+o.json)
+			}
+			perm := `"Users": {` + strings.Join(users, ", ") + `}`
+			if d.present {
+				perm = `"Default": ` + d.json + `, ` + perm
+			}
+			cfgText := `{"Server": {"Permissions": {` + perm + `}}}`
+			path := WriteScratch(fmt.Sprintf("c08/config-%d-%d.json", di, oi), cfgText)
+			args := DefaultArgs()
+			args.Logger = "none"
+			args.LogLevel = "error"
+			args.ConfigFile = path
+			config.Setup(source.Server, &args, nil)
+			effective := []string{"^/.*"}
+			if d.present {
+				effective = d.rules
+			}
+			if o.present {
+				effective = o.rules
+			}
+			u, err := userserver.New("alice", "harness")
+			for _, p := range l.Paths {
+				got := err == nil && u.HasFilePermission(p, "readfiles")
+				want := c08Reference(effective, l.Resolve[p])
+				key := ""
+				if l.Resolve[p] != "" {
+					key = "cfg|" + cfgText + "|" + p
+				}
+				c.Count(key)
+				if got != want {
+					sig := "config-file-rules-not-applied"
+					c.Violation(sig, fmt.Sprintf("configuration file %s loaded by config.Setup: user alice, requested %q which resolves to %q: permission %v; the list that applies to alice is %q, which says %v",
+						strings.ReplaceAll(cfgText, R, "R"), strings.Replace(p, l.Root, "R", 1), strings.Replace(l.Resolve[p], l.Root, "R", 1), got, effective, want), c08Case{effective, o.present, p})
+					break
+				}
+			}
+		}
+	}
+}
+
 func c08Run(c *Ctx) {
 	l := c08Build()
 	if err := os.Chdir(l.Root); err != nil {
@@ -306,6 +373,7 @@ func c08Run(c *Ctx) {
 			}
 		}
 	})
+	c08ConfigFiles(c, l)
 	c.Sample(c08Case{Rules: []string{"^/.*", "!^R/sec/"}, Path: "R/pub/chain2.log (symlink -> chain1.log -> to-secret.log -> ../sec/s.log)"})
 }
 
@@ -316,7 +384,7 @@ func init() {
 		Rule: "a real directory tree (public and secret files, symlinks file->file, dir->dir, chains of two, dangling, loop, from the secret into the public directory, a FIFO, a directory, a device) and 25 requested paths (one behind a directory name that ends in a line break) (direct, through every symlink kind, " +
 			"with '..', '.', '//', relative to the working directory, non-existent) + 5 globs; all ordered rule lists of length <=3 (quick) / <=4 (thorough) over 13 rules (allow, '!' deny, bare rules containing ':' via POSIX classes, Perl classes and flag groups, 'readfiles:' typed, a foreign type), " +
 			"as default rules and as per-user override; oracle A: HasFilePermission == reference (own resolution table of the layout, regular-file test, last matching readfiles rule wins, default deny) in both directions; oracle B (all lists of length <=2/<=3): " +
-			"a cat command through a real server session (plain, and with the client-settable options serverless/plain/quiet in the command word) delivers exactly the content of the allowed files and nothing of the denied ones; non-trivial = the request resolves to a regular file",
+			"a cat command through a real server session (plain, and with the client-settable options serverless/plain/quiet in the command word) delivers exactly the content of the allowed files and nothing of the denied ones; plus 24 JSON configuration files loaded through the real start-up path (Default list absent/empty/two lists x the user's own entry absent/[]/null/three lists, next to another user's generous entry): the verdict for all 25 paths follows the list that applies to the user (the own entry whenever one exists, also an empty one); non-trivial = the request resolves to a regular file",
 		Assumptions: []string{
 			"ordinary users only (the scheduled/continuous background users' blanket permission is a documented design decision)",
 			"OS-level ACL check compiled out (default build)",
